@@ -42,6 +42,12 @@ add("C11", "model_checking",
     "Trusted: spec_step (the statement's wording on raw edges); REF-ISA's defined-opcode sets; a twin that repeats an identical full machine state or exceeds 4096 edges counts as never returning.",
     "DESIGN.md 3/C11")
 
+add("C04", "model_checking",
+    "deviation-bounded exhaustive schedule enumeration (0, 1, 2 key presses at every clock edge / every ordered pair in a window) of generated programs on the real Machine, each schedule observed edge by edge against the uninterrupted twin",
+    "For every program of the family (prologue + every body sequence up to length 2/3 over 14 instruction kinds x 3 interrupt routines) the key is pressed before every single clock edge 0..T, and at every ordered pair of edges in a 120-edge window; each run must enter the routine exactly as often as the statement requires, push FR (IE set) and a return address that is a boundary state of the uninterrupted run, have IE clear inside, replay the uninterrupted boundary sequence of the main program, and end with identical registers/flags/SP/outputs/RAM (outside the dead stack area).",
+    "Trusted: the classification of a press as 'while enabled' (MICR bit and IE at the press, IE still set at the sampling edge); presses in other windows may enter 0 or 1 times; sampling edges are read from the public Signals + wait latch accessor.",
+    "DESIGN.md 3/C04")
+
 NOT_YET = {}
 
 def main():
